@@ -3,4 +3,5 @@ package main
 type Scenario struct{}
 type ScenarioOutcome struct{}
 
-func runC19(tier string) int { return 2 }
+func runC19(tier string) int                    { return 2 }
+func replayC19(rf *ReplayFile, path string) int { return 2 }
